@@ -792,5 +792,10 @@ def distribution(d, case, obs):
     ln[lb] = ln.get(lb, 0) + 1
 
 
+if __import__("os").environ.get("C01_NO_SHRINK"):      # used only by the mutant-validation script (speed)
+    def shrink(case):
+        return iter(())
+
+
 def sample(case, obs):
     return {"cls": case.get("cls", "OMD"), "ops": case["ops"][:5], "obs": obs[:5]}
